@@ -65,6 +65,10 @@ SUMMARY = {
 'c08v':'table variant batches replacements of adjacent matches in a 256-byte stack buffer and writes a replacement that does not fit straight through without flushing first: long runs of back-to-back matches come out reordered',
 'c17v':'packed::Searcher copies sub-minimum_len haystacks into a shared scratch buffer whose tail is never re-zeroed: a shorter haystack after a longer one joins stale bytes to a pattern crossing its end',
 'c18v':'table variant wraps the writer in an 8 KiB coalescing buffer that is re-sent in full by a trailing flush after write_all failed part-way: the head of the block reaches the writer twice',
+'c07w':'roll buffer slides a start offset instead of copying while 4*min bytes are free and compacts with a window-relative offset used as absolute: after a slide the compaction keeps stale bytes (needs capacity >= 5*longest+1 and reads that leave room)',
+'c08w':'non-match chunks offered with a single write(); if exactly one byte stays unwritten it is handed back to the chunk iterator - lost when that chunk was the final one',
+'c17w':'AhoCorasick keeps a shared, lazily created roll buffer for stream replacement behind a Mutex, cleared after the search and recovered from poisoning with into_inner(): a panic unwinding through one stream replace leaves stale bytes for the next',
+'c18w':'table variant wraps the writer in a BufWriter and never flushes: a failure of the final (drop-time) write is discarded and Ok(()) returned',
 'c18a':'fill returns Ok(true) instead of the error when it had already buffered bytes in the same call: one-shot read errors during the initial fill vanish',
 'c18b':'closure errors of kind Interrupted are retried by calling the closure again: error swallowed, partial output duplicated',
 'c18c':'fill commits its new end only after the loop: an error on a later read of one fill discards bytes accepted earlier; polling on shifts all later offsets',
